@@ -16,6 +16,7 @@ Four families, each a finite grammar enumerated completely up to a size bound
                   variable, if-expression, enumerate/zip, element stores
   P  loop consts  names initialised to constants and re-defined in a loop body by tuple
                   destructuring / plain assignment, read in the body and after the loop
+  T  tuple rows   lists of tuples holding lists / tuples of lists through every alias route
   Z  sizes        zip / assert / slices with constant and symbolic bounds /
                   range / comprehensions / helper calls, under branches, loops
                   and early returns
@@ -470,6 +471,54 @@ def family_L(size: int, core: bool, exact: bool = False) -> Iterator[Prog]:
 
 
 # ----------------------------------------------------------------------
+# Family T: lists whose elements are *tuples holding lists* (and tuples of lists), pushed through every alias
+# route.  base -> route -> reach the inner list through the routed value -> reach it through the base under
+# another name; both names stay live, so the `is` oracle sees one object held by two definitions.
+
+# (construction of ps, projection that yields the inner list, destructuring pattern with `{x}` the list)
+T_BASES = [
+    ('ps = [(us, 1), (vs, 2)]', 'fst', '{x}, w'),                # list of (list, scalar)
+    ('ps = [(1, us), (2, vs)]', 'snd', 'w, {x}'),                # list of (scalar, list)
+    ('ps = zip(uss, us)', 'fst', '{x}, w'),                      # rows paired with scalars
+    ('ps = enumerate(uss)', 'snd', 'w, {x}'),                    # (index, row)
+    ('ps = [(r, 1) for r in uss]', 'fst', '{x}, w'),             # comprehension-built tuples
+    ('ps = [(us, vs), (vs, us)]', 'fst', '{x}, w'),              # list of tuples of lists
+    ('ps = [(us, vs), (vs, us)]', 'snd', 'w, {x}'),
+]
+T_ROUTES = [
+    'qs = ps', 'qs = ps[0:1]', 'qs = ps[:]', 'qs = ps[1:]', 'qs = [p for p in ps]', 'qs = [ps[0]]',
+    'qs = (ps if u > 0 else ps[0:1])', 'qs = (ps[0:1] if u > 0 else ps[:])', 'qs = ps[0:2][0:1]',
+    'qs = [p for p in ps[0:1]]', 'qs = [(fst(p), snd(p)) for p in ps]', 'qs = [p for i, p in enumerate(ps[:])]',
+    'qs = [p for p, q in zip(ps[0:1], ps[0:1])]',
+]
+
+
+def _t_reach(src: str, x: str, proj: str, pat: str) -> list[list[str]]:
+    """ways to bind the inner list of `src` (a list of tuples) to the name `x`"""
+    return [
+        [f'{x} = {proj}({src}[0])'],                                      # index + field
+        [f'{pat.format(x=x)} = {src}[0]'],                                # destructuring assignment
+        [f't{x} = {src}[0]', f'{x} = {proj}(t{x})'],                      # tuple name, then field
+        [f'{x} = [{proj}(p) for p in {src}][0]'],                         # comprehension variable + field
+        [f'{x} = [{x} for {pat.format(x=x)} in {src}][0]'],               # destructuring comprehension target
+        [f'for {pat.format(x=x)} in {src}:', f'    a{x} = len({x})'],    # destructuring for target
+        [f'{x}s = {src}[0:1]', f'{x} = {proj}({x}s[0])'],                 # one more slice on the way
+    ]
+
+
+def family_T() -> Iterator[Prog]:
+    for base, proj, pat in T_BASES:
+        for route in T_ROUTES:
+            for r1 in _t_reach('qs', 'xs', proj, pat):
+                for r2 in _t_reach('ps', 'ys', proj, pat)[:4] + [[]]:
+                    for store in ([], ['us[0] = 5']):
+                        if store and r2:
+                            continue
+                        body = [base, route] + r1 + r2 + store + ['return len(us) + len(vs)']
+                        yield make_prog('T', body, 'T')
+
+
+# ----------------------------------------------------------------------
 # Family Z
 
 class ZGrammar(Grammar):
@@ -575,6 +624,8 @@ POOLS = {
     'V': {'u': [NAN, INF, -INF, 0.0, -0.0, 1.0, 1.5, -2.0, 5e-324], 'v': [NAN, INF, 0.0, 1.0, -3.0],
           'n': [0, 2], 'us': [[], [0.0, NAN]], 'vs': [[1.0]], 'uss': [[[1.0]]]},
     'P': {'u': [-1.0, 1.0], 'v': [1.0], 'n': [0, 1, 2, 3, 4], 'us': [[1.0]], 'vs': [[1.0]], 'uss': [[[1.0]]]},
+    'T': {'u': [-1.0, 1.0], 'v': [1.0], 'n': [0], 'us': [[1.0, 2.0]], 'vs': [[7.0, 8.0, 9.0]],
+          'uss': [[[3.0], [4.0, 5.0]]]},
     'L': {'u': [-1.0, 1.0], 'v': [1.0], 'n': [0, 1],
           'us': [[1.0, 2.0]], 'vs': [[7.0, 8.0, 9.0]],
           'uss': [[[3.0], [4.0, 5.0]], [[3.0, 6.0]]]},
@@ -645,6 +696,7 @@ def space(tier: str, seed: int = 0):
             ('Vchain', family_V_chain, None),
             ('L<=2', lambda: family_L(2, False), None),
             ('L=3core', lambda: family_L(3, True, True), None),
+            ('T', family_T, None),
             ('Z<=2', lambda: family_Z(2, False), None),
             ('Z=3core', lambda: family_Z(3, True, True), (seed % 8, 8)),
         ]
@@ -654,6 +706,7 @@ def space(tier: str, seed: int = 0):
         ('V', lambda: family_V('thorough'), None),
         ('Vchain', family_V_chain, None),
         ('L<=3', lambda: family_L(3, False), None),
+        ('T', family_T, None),
         ('Z<=2', lambda: family_Z(2, False), None),
         ('Z=3core', lambda: family_Z(3, True, True), None),
     ]
